@@ -63,6 +63,8 @@ def run(ctx):
     r62(ctx, rep)
     r63(ctx, rep)
     r64_65(ctx, rep)
+    rep.rule('R6.11', 'merge cursors are itertools.groupby over their side; a groupby group is iterated once or materialised first')
+    r611(ctx, rep)
     from .plumbing import check_plumbing
     rep.rule('R6.6', 'view -> iterator plumbing of the merge joins: self.X reaches the parameter named X')
     ctx.floor('plumbing_sites', check_plumbing(ctx, rep, 'R6.6', ['petl.transform.joins']), 15)
@@ -391,3 +393,69 @@ def r64_65(ctx, rep):
             rep.add('R6.5', (o.module, o.qualname), '%s: %s' % (o.rule, o.construct), o.status, o.message, o.lineno, o.detail)
     if n < 6:
         raise AnalysisError('anchor vanished: only %d exhausted-side obligations found in the merge joins' % n)
+
+
+# ------------------------------------------------------------------------ R6.11
+def r611(ctx, rep):
+    """The merge advances each side with next(<cursor>) and expects one step to move past a whole key group:
+    (a) every cursor of a merge iterator is itertools.groupby(<that side's iterator>, key=<that side's key getter>);
+    (b) a group handed out by groupby is a one-shot iterator: it is iterated at most once, or materialised with list()
+        first -- never re-iterated inside another loop."""
+    n = 0
+    for fq in MERGE_ITERS:
+        fn = ctx.project.need_fn(fq)
+        binds = {}
+        for x in own_nodes(fn.node):
+            if isinstance(x, ast.Assign) and len(x.targets) == 1 and isinstance(x.targets[0], ast.Name):
+                binds.setdefault(x.targets[0].id, []).append(x.value)
+        cursors = set()
+        for x in own_nodes(fn.node):
+            if isinstance(x, ast.Call) and norm(x.func) == 'next' and x.args and isinstance(x.args[0], ast.Name):
+                cursors.add(x.args[0].id)
+            if isinstance(x, ast.For) and isinstance(x.iter, ast.Name) and isinstance(x.target, ast.Tuple):
+                cursors.add(x.iter.id)
+        # only the cursors that deliver (key, group) pairs
+        for cname in sorted(cursors):
+            vals = binds.get(cname, [])
+            if not vals or not any(isinstance(v, (ast.Call, ast.GeneratorExp)) for v in vals):
+                continue
+            pairish = any(isinstance(v, ast.Call) and norm(v.func).endswith('groupby') for v in vals) or \
+                any(isinstance(v, ast.GeneratorExp) and isinstance(v.elt, ast.Tuple) for v in vals)
+            if not pairish:
+                continue
+            n += 1
+            ok = len(vals) == 1 and isinstance(vals[0], ast.Call) and norm(vals[0].func) in ('itertools.groupby', 'groupby') \
+                and len(vals[0].args) >= 1 and (any(k.arg == 'key' for k in vals[0].keywords) or len(vals[0].args) >= 2)
+            if ok:
+                rep.held('R6.11', fn, '%s = %s' % (cname, norm(vals[0])[:50]), 'groups of equal keys', fn.node)
+            else:
+                rep.violated('R6.11', fn, '%s = %s' % (cname, norm(vals[0])[:50]),
+                             'the merge cursor `%s` is not itertools.groupby(...) over that side: one step of the merge no longer '
+                             'moves past all rows of a key, so rows of a repeated key are compared with the next key of the '
+                             'other side (matched rows reported as unmatched, or lost)' % cname, fn.node)
+    if n < 6:
+        raise AnalysisError('anchor vanished: only %d merge cursors found' % n)
+    # (b) one-shot groups
+    m = 0
+    for fq in MERGE_ITERS:
+        top = ctx.project.need_fn(fq)
+        for fn in [top] + list(top.nested.values()):
+            listed = set()
+            for x in own_nodes(fn.node):
+                if isinstance(x, ast.Assign) and len(x.targets) == 1 and isinstance(x.targets[0], ast.Name) and \
+                        isinstance(x.value, (ast.Call, ast.List, ast.ListComp)) and \
+                        (not isinstance(x.value, ast.Call) or norm(x.value.func) in ('list', 'tuple', 'sorted')):
+                    listed.add(x.targets[0].id)
+            for outer in [x for x in own_nodes(fn.node) if isinstance(x, (ast.For, ast.While))]:
+                stored = {y.id for b in outer.body for y in ast.walk(b) if isinstance(y, ast.Name) and isinstance(y.ctx, ast.Store)}
+                for inner in [y for b in outer.body for y in ast.walk(b) if isinstance(y, ast.For)]:
+                    if isinstance(inner.iter, ast.Name):
+                        nm = inner.iter.id
+                        m += 1
+                        if nm in listed or nm in stored:
+                            rep.held('R6.11', fn, 'for ... in %s (nested)' % nm, 'materialised, or bound anew in each outer pass', inner)
+                        else:
+                            rep.violated('R6.11', fn, 'for ... in %s (nested)' % nm,
+                                         '`%s` is iterated inside another loop without having been materialised: a group '
+                                         'delivered by itertools.groupby is a one-shot iterator, the second outer pass finds it '
+                                         '(partly) consumed, so partners are skipped or rows dropped' % nm, inner)
